@@ -28,6 +28,11 @@ def code_canon(c: str) -> str:
     return c
 
 
+def _title(t):
+    """a title up to runs of whitespace: reflowing a paragraph may move a line break into or out of a multi-word title"""
+    return norm_ws(t) if isinstance(t, str) else t
+
+
 def _pangu(t: str) -> str:
     """the single space flowmark deliberately puts between adjacent CJK and Latin characters (allowed by C01): applied to both sides"""
     try:
@@ -74,9 +79,9 @@ def inl_m(children):
             elif n in ("Emphasis", "StrongEmphasis", "Strikethrough", "CustomStrikethrough"):
                 out.append((n.replace("Custom", ""), inl_m(c.children)))
             elif n == "Link":
-                out.append(("link", c.dest, c.title, inl_m(c.children)))
+                out.append(("link", c.dest, _title(c.title), inl_m(c.children)))
             elif n == "Image":
-                out.append(("img", c.dest, c.title, inl_m(c.children)))
+                out.append(("img", c.dest, _title(c.title), inl_m(c.children)))
             elif n == "AutoLink":
                 out.append(("auto", c.dest))
             elif n == "Url":
@@ -177,9 +182,9 @@ def inl_i(nodes):
             if n.markup == "autolink":
                 out.append(("auto", n.attrs["href"]))
             else:
-                out.append(("link", n.attrs["href"], n.attrs.get("title"), inl_i(n.children)))
+                out.append(("link", n.attrs["href"], _title(n.attrs.get("title")), inl_i(n.children)))
         elif t == "image":
-            out.append(("img", n.attrs["src"], n.attrs.get("title"), inl_i(n.children)))
+            out.append(("img", n.attrs["src"], _title(n.attrs.get("title")), inl_i(n.children)))
         else:
             out.append((t,))
     return _finish_inline(out)
